@@ -22,6 +22,43 @@ def sub_alts(g, node, site):
     return out
 
 
+def escape_shape(facts, b, g, scope):
+    """The escape parser as (alternatives after the backslash, value when none of them matches, description).
+
+    Two ways of writing it are recognised: alt((preceded("\\", alt(..)), "\\".value(V))) and the sequential form
+    `"\\".parse_next(input)?; let e = opt(<alternatives>).parse_next(input)?; Ok(<value of e, V when absent>)`, whose
+    result expression is evaluated for an absent and for a present escape."""
+    from .. import probe as P
+
+    fb = b.fn_ir(SPECIAL)
+    sb = single_body(fb)
+    is_bs = lambda n: unwrap(n)["t"] == "lit" and unwrap(n)["s"] == "\\"
+    if sb is not None and sb["t"] == "alt" and len(sb["alts"]) == 2:
+        first, last = unwrap(sb["alts"][0]), unwrap(sb["alts"][1])
+        if first["t"] == "seq" and len(first["items"]) == 2 and is_bs(first["items"][0]["p"]) and not first["items"][0]["keep"] and last["t"] == "value" and is_bs(last["p"]) and rx.path_str(last["v"]) is not None:
+            return first["items"][1]["p"], rx.canon_path(rx.path_str(last["v"]), scope), "second alternative %s" % peg.show(last)
+        return None, None, "two alternatives, but not preceded('\\', ..) and a lone backslash: %s" % peg.show(sb)[:120]
+    if fb["t"] == "fnbody" and len(fb["steps"]) == 2 and not fb["unknown"] and not fb["lets"] and fb["tail"] is None and fb["ret"] is not None:
+        s0, s1 = fb["steps"]
+        opt = unwrap(s1["p"])
+        if is_bs(s0["p"]) and s0["pat"]["k"] == "wild" and opt["t"] == "alt" and opt.get("opt") and s1["pat"]["k"] == "ident":
+            fn = facts.fn(SPECIAL)
+            pr = P.Probe(facts, "FormatSpecial", fn.module)
+            nm = s1["pat"]["name"]
+            try:
+                tok = P.Opq("escape")
+                absent = pr.ev(fb["ret"], {nm: None})
+                present = pr.ev(fb["ret"], {nm: ("some", tok)})
+                if isinstance(absent, tuple) and absent[0] == "ok":
+                    absent, present = absent[1], present[1] if isinstance(present, tuple) and present[0] == "ok" else present
+            except (P.NoEval, P.Panic) as ex:
+                return None, None, "result expression not evaluable: %s" % ex
+            if present is tok and isinstance(absent, tuple) and absent[0] == "enum" and not absent[2]:
+                return opt["alts"][0], rx.canon_path(absent[1], scope), "after the backslash an optional escape; result `%s` = the escape when present, %s otherwise" % (src(fb["ret"])[:60], absent[1])
+            return None, None, "result `%s` is not 'the escape, or a constant'" % src(fb["ret"])[:60]
+    return None, None, "neither alt((preceded('\\', alt(..)), '\\'.value(..))) nor the sequential form: %s" % peg.show(fb)[:120]
+
+
 def radix_site(a):
     """alternative `take_while(range, digits).map(|s| T::from_str_radix(s, R).unwrap()).map(Ctor)` -> dict or None"""
     n = unwrap(a.head)
@@ -56,16 +93,9 @@ def run(c, facts, tier):
     c.decided = ["escape and directive tables", "octal escape takes at most three digits", "backslash before any other character stands for itself", "maximal non-empty literal runs", "unknown '%' directive is an error"]
 
     # ------------------------------------------------------------------ escapes
-    sb = single_body(b.fn_ir(SPECIAL))
-    if sb is None or sb["t"] != "alt":
-        raise F.AnchorMissing("escape parser shape (%s)" % SPECIAL)
-    outer = sb["alts"]
-    first = unwrap(outer[0])
-    inner_alt = None
-    if first["t"] == "seq" and len(first["items"]) == 2 and unwrap(first["items"][0]["p"])["t"] == "lit" and unwrap(first["items"][0]["p"])["s"] == "\\" and not first["items"][0]["keep"]:
-        inner_alt = first["items"][1]["p"]
+    inner_alt, fallback, fallback_shape = escape_shape(facts, b, g, scope)
     if inner_alt is None:
-        raise F.AnchorMissing("escape parser: preceded('\\\\', alt(...)) not found")
+        raise F.AnchorMissing("escape parser shape (%s): %s" % (SPECIAL, fallback_shape))
     ealts = sub_alts(g, inner_alt, SPECIAL)
     table = {}
     octal = None
@@ -158,9 +188,8 @@ def run(c, facts, tier):
                 )
     c.ob("C14.literals", tokfn, "format-taking keywords found", ndel >= 2, "%d keyword arguments are parsed by the format parser" % ndel, nontrivial=False)
     # ------------------------------------------------------------------ other backslash
-    last = unwrap(outer[-1])
-    okb = len(outer) == 2 and last["t"] == "value" and unwrap(last["p"])["t"] == "lit" and unwrap(last["p"])["s"] == "\\" and rx.path_str(last["v"]) is not None and rx.canon_path(rx.path_str(last["v"]), scope) == "FormatSpecial::" + spec["other_backslash"]
-    c.ob("C14.other-backslash", SPECIAL, "fall-back consumes exactly the backslash and yields Backslash", okb, "fall-back alternative: %s" % peg.show(last))
+    okb = fallback == "FormatSpecial::" + spec["other_backslash"]
+    c.ob("C14.other-backslash", SPECIAL, "fall-back consumes exactly the backslash and yields Backslash", okb, "when nothing documented follows the backslash: %s" % fallback_shape)
 
     # ------------------------------------------------------------------ directives
     fbody = single_body(b.fn_ir(FIELD))
@@ -223,43 +252,26 @@ def run(c, facts, tier):
     vb = single_body(b.fn_ir(VEC))
     det = "shape of the scanner not recognised: %s" % (peg.show(vb) if vb else "?")
     ok_struct = ok_pair = ok_fold = ok_suffix = None
-    if vb is not None and vb["t"] == "map" and unwrap(vb["p"])["t"] == "seq":
-        sq = unwrap(vb["p"])
-        if len(sq["items"]) == 2:
-            fold, suffix = unwrap(sq["items"][0]["p"]), unwrap(sq["items"][1]["p"])
-            if fold["t"] == "fold" and unwrap(fold["p"])["t"] == "rep":
-                rep = unwrap(fold["p"])
-                pair = unwrap(rep["p"])
-                if pair["t"] == "map" and unwrap(pair["p"])["t"] == "reptill":
-                    rt = unwrap(pair["p"])
-                    stops = [unwrap(x) for x in flat_alts(rt["stop"])]
-                    stopmap = {}
-                    for s_ in stops:
-                        if s_["t"] == "map" and unwrap(s_["p"])["t"] == "ref":
-                            stopmap[unwrap(s_["p"])["fn"]] = rx.canon_path(rx.path_str(s_["f"]) or "?", scope)
-                    ok_struct = (
-                        rep["min"] == 0
-                        and rep["max"] is None
-                        and rt["min"] == 0
-                        and rt["max"] is None
-                        and unwrap(rt["p"])["t"] == "any"
-                        and stopmap == {FIELD: "FormatElement::Field", SPECIAL: "FormatElement::Special"}
-                        and suffix["t"] == "rep"
-                        and suffix["min"] == 0
-                        and suffix["max"] is None
-                        and unwrap(suffix["p"])["t"] == "any"
-                    )
-                    det = "scanner = repeat(0.., repeat_till(0.., any, %s)) then repeat(0.., any)" % sorted(stopmap.items())
-                    ok_pair = pair_closure_ok(pair["f"], scope)
-                    ok_fold = fold_ok(fold)
-                    ok_suffix = suffix_closure_ok(vb["f"], scope)
+    sem_det = ""
+    sc = scanner_parts(g, vb)
+    if sc is not None:
+        rep, rt, suffix = sc
+        stops = [unwrap(x) for x in flat_alts(rt["stop"])]
+        stopmap = {}
+        for s_ in stops:
+            if s_["t"] == "map" and unwrap(s_["p"])["t"] == "ref":
+                stopmap[unwrap(s_["p"])["fn"]] = rx.canon_path(rx.path_str(s_["f"]) or "?", scope)
+        everything = (suffix["t"] == "rep" and suffix["min"] == 0 and suffix["max"] is None and unwrap(suffix["p"])["t"] == "any") or (suffix["t"] == "set" and suffix["cs"] == peg.cs_notin([]) and suffix["min"] == 0 and suffix["max"] is None)
+        ok_struct = rep["min"] == 0 and rep["max"] is None and rt["min"] == 0 and rt["max"] is None and unwrap(rt["p"])["t"] == "any" and stopmap == {FIELD: "FormatElement::Field", SPECIAL: "FormatElement::Special"} and everything
+        det = "scanner = repeat(0.., repeat_till(0.., any, %s)) then %s" % (sorted(stopmap.items()), "the rest of the word" if everything else peg.show(suffix)[:40])
+        ok_pair, ok_fold, ok_suffix, sem_det = scanner_values(facts, b, vb, rep, rt, suffix)
     c.ob("C14.literals", VEC, "scanner tries an element before extending the literal at every position", ok_struct, det)
-    c.ob("C14.literals", VEC, "a literal before an element is emitted only when non-empty, in order [literal, element]", ok_pair, "pair closure: %s" % (src(unwrap(vb["p"])["items"][0]["p"]) if False else "match on the literal's length; 0 → [el], otherwise [Literal(lit), el]"))
-    c.ob("C14.literals", VEC, "pairs are concatenated in input order", ok_fold, "fold(vec![], |acc, e| { acc.extend(e); acc })")
+    c.ob("C14.literals", VEC, "a literal before an element is emitted only when non-empty, in order [literal, element]", ok_pair, sem_det or "not evaluated")
+    c.ob("C14.literals", VEC, "pairs are concatenated in input order", ok_fold, sem_det or "not evaluated")
     from .. import mir as _mir
 
     _mir.order_rule(c, facts, "C14.literals", [VEC], "elements and literal characters must keep the order of the format string")
-    c.ob("C14.literals", VEC, "the trailing literal is emitted only when non-empty, after all elements", ok_suffix, "suffix closure guards on !suffix.is_empty() and pushes Literal(suffix) last")
+    c.ob("C14.literals", VEC, "the trailing literal is emitted only when non-empty, after all elements", ok_suffix, sem_det or "not evaluated")
     # maximality premises: '%' and '\' always start an element or a hard error
     f1 = g.first(b.fn_ir(FIELD))
     f2 = g.first(b.fn_ir(SPECIAL))
@@ -275,95 +287,95 @@ def run(c, facts, tier):
     c.control("C14.octal", True, "fixture take_while(3.., octal): max=None ≠ 3 is reported (same comparison as above)")
 
 
-def pair_closure_ok(f, scope):
-    if f["k"] != "closure" or len(f["params"]) != 1:
+def scanner_parts(g, vb):
+    """(outer repetition, text-then-element repeat_till, suffix) of the format scanner, through maps, folds and helper
+    functions that only name a parser expression."""
+    if vb is None:
         return None
-    p = rx.closure_params(f)[0]
-    if p["k"] != "tuple" or len(p["elems"]) != 2:
+    n = vb
+    while n["t"] in ("map", "ctx", "cut"):
+        n = n["p"]
+    n = unwrap(n)
+    if n["t"] != "seq" or len(n["items"]) != 2:
         return None
-    names = [rx.pat_bindings(e)[0] if rx.pat_bindings(e) else None for e in p["elems"]]
-    lit, el = names
-    body = rx.closure_body(f)
-    empty_branch = nonempty_branch = None
-    if body["k"] == "match":
-        sc = body["scrut"]
-        if not (sc["k"] == "mcall" and sc["m"] == "len" and rx.is_var(sc["recv"], lit)):
-            return None
-        for arm in body["arms"]:
-            if arm["pat"]["k"] == "lit" and arm["pat"]["v"] == 0:
-                empty_branch = arm["body"]
-            elif rx.is_catchall(arm["pat"]):
-                nonempty_branch = arm["body"]
-    elif body["k"] == "if":
-        cond = body["cond"]
-        neg = False
-        if cond["k"] == "unary" and cond["op"] == "!":
-            neg, cond = True, cond["e"]
-        if not (cond["k"] == "mcall" and cond["m"] == "is_empty" and rx.is_var(cond["recv"], lit)):
-            return None
-        th, el_ = rx.peel(body["then"]), rx.peel(body["else"]) if body["else"] else None
-        empty_branch, nonempty_branch = (el_, th) if neg else (th, el_)
-    if empty_branch is None or nonempty_branch is None:
+
+    def down(x, want):
+        x = unwrap(x)
+        hops = 0
+        while x["t"] != want and hops < 8:
+            hops += 1
+            if x["t"] in ("map", "fold", "ctx", "cut"):
+                x = unwrap(x["p"])
+            elif x["t"] == "ref" and not x.get("extra"):
+                sb = single_body(g.deref(x))
+                if sb is None:
+                    return None
+                x = sb
+            else:
+                return None
+        return x if x["t"] == want else None
+
+    rep = down(n["items"][0]["p"], "rep")
+    if rep is None:
         return None
-    eb, nb = rx.peel(empty_branch), rx.peel(nonempty_branch)
-    ok_e = eb["k"] == "macro" and eb["name"] == "vec" and len(eb.get("args", [])) == 1 and rx.is_var(eb["args"][0], el)
-    ok_n = False
-    if nb["k"] == "macro" and nb["name"] == "vec" and len(nb.get("args", [])) == 2:
-        chain, a = rx.ctor_chain(nb["args"][0])
-        ok_n = bool(chain) and rx.canon_path(chain[-1], scope) == "FormatElement::Literal" and a is not None and len(a) == 1 and rx.is_var(a[0], lit) and rx.is_var(nb["args"][1], el)
-    return ok_e and ok_n
+    rt = down(rep["p"], "reptill")
+    suffix = unwrap(n["items"][1]["p"])
+    if rt is None:
+        return None
+    return rep, rt, suffix
 
 
-def fold_ok(fold):
-    ini, st = fold["init"], fold["step"]
-    if st["k"] != "closure" or len(st["params"]) != 2:
-        return None
-    if ini["k"] == "path":
-        # a constructor function used as the initialiser: Vec::new / Vec::default
-        if rx.path_str(ini) not in ("Vec::new", "Vec::default", "Default::default"):
-            return False
-    elif ini["k"] != "closure":
-        return None
-    else:
-        ib = rx.closure_body(ini)
-        if not (ib["k"] == "macro" and ib["name"] == "vec" and not ib.get("args")):
-            if not (ib["k"] == "call" and rx.path_str(ib["f"]) in ("Vec::new", "Vec::default") and not ib["args"]):
-                return False
-    acc, e = [rx.pat_bindings(p)[0] for p in rx.closure_params(st)]
-    body = st["body"]
-    stmts = rx.stmts_of(body)
-    if len(stmts) != 2:
-        return None
-    s0, s1 = stmts
-    e0 = s0.get("e")
-    ok0 = e0 is not None and e0["k"] == "mcall" and e0["m"] in ("extend", "append") and rx.is_var(e0["recv"], acc) and rx.is_var(e0["args"][0], e)
-    ok1 = s1["k"] == "expr" and rx.is_var(s1["e"], acc)
-    return ok0 and ok1
+def scanner_values(facts, b, vb, rep, rt, suffix):
+    """What the scanner returns, evaluated (vlib/irval.py) for two (text, element) rounds and a suffix, each text / the
+    suffix empty or not (8 cases), the elements unknown: the list must be, in order, Literal(text) when the text is not
+    empty, then the element, for each round, then Literal(suffix) when the suffix is not empty.
+    -> (pair ok, order ok, suffix ok, detail)"""
+    from .. import probe as P, irval
+    import itertools
 
+    E = [P.Opq("element0"), P.Opq("element1")]
 
-def suffix_closure_ok(f, scope):
-    if f["k"] != "closure" or len(f["params"]) != 1:
-        return None
-    p = rx.closure_params(f)[0]
-    if p["k"] != "tuple" or len(p["elems"]) != 2:
-        return None
-    lst, suf = [rx.pat_bindings(e)[0] for e in p["elems"]]
-    stmts = rx.stmts_of(f["body"])
-    if len(stmts) != 2:
-        return None
-    ifs, ret = stmts
-    e = ifs.get("e")
-    if e is None or e["k"] != "if" or e["else"] is not None:
-        return None
-    cond = e["cond"]
-    if not (cond["k"] == "unary" and cond["op"] == "!" and cond["e"]["k"] == "mcall" and cond["e"]["m"] == "is_empty" and rx.is_var(cond["e"]["recv"], suf)):
-        return False
-    th = rx.stmts_of(e["then"])
-    if len(th) != 1:
-        return None
-    pe = th[0].get("e")
-    okp = pe is not None and pe["k"] == "mcall" and pe["m"] == "push" and rx.is_var(pe["recv"], lst)
-    if okp:
-        chain, a = rx.ctor_chain(pe["args"][0])
-        okp = bool(chain) and rx.canon_path(chain[-1], scope) == "FormatElement::Literal" and a is not None and rx.is_var(a[0], suf)
-    return okp and ret["k"] == "expr" and rx.is_var(ret["e"], lst)
+    class SC(irval.Ctx):
+        def iterations(self, node):
+            return 2 if node is rep else None
+
+        def rep(self, node):
+            if node is rt:
+                i = self.index.get(id(rep), 0)
+                return [self.texts[i], E[i]]
+            if node is suffix:
+                return self.suffix
+            raise P.NoEval("unexpected repetition")
+
+        def leaf(self, node):
+            if node is suffix:
+                return self.suffix
+            raise P.NoEval("unexpected leaf")
+
+    lit = lambda t: ("enum", "FormatElement::Literal", [t])
+    bad_pair, bad_order, bad_suffix = [], [], []
+    try:
+        for t0, t1, sf in itertools.product(("", "ab"), ("", "cd"), ("", "ef")):
+            ctx = SC(facts, b, facts.fn(VEC).module)
+            ctx.texts, ctx.suffix = [t0, t1], sf
+            got = irval.value(vb, ctx)
+            want = ([lit(t0)] if t0 else []) + [E[0]] + ([lit(t1)] if t1 else []) + [E[1]] + ([lit(sf)] if sf else [])
+            if got != want:
+                case = "texts %r, %r, suffix %r → %r" % (t0, t1, sf, got)
+                if not isinstance(got, list):
+                    bad_pair.append(case)
+                    continue
+                body, tail = (got[:-1], got[-1:]) if (got and got[-1] == lit(sf) and sf) else (got, [])
+                if (tail == [lit(sf)]) != bool(sf) or (not sf and any(x == lit("") for x in got[-1:])):
+                    bad_suffix.append(case)
+                elems = [x for x in got if any(x is e_ for e_ in E)]
+                if [id(x) for x in elems] != [id(x) for x in E]:
+                    bad_order.append(case)
+                elif case not in bad_suffix:
+                    bad_pair.append(case)
+    except (P.NoEval, P.Panic) as ex:
+        return None, None, None, "the scanner's value is not evaluable: %s" % ex
+    det = "scanner value evaluated on two (text, element) rounds and a suffix, every text empty or not (8 cases): the list is [Literal(text) if non-empty, element] per round, then Literal(suffix) if non-empty"
+    if bad_pair or bad_order or bad_suffix:
+        det += "; EXCEPT " + "; ".join((bad_pair + bad_order + bad_suffix)[:2])
+    return not bad_pair, not bad_order, not bad_suffix, det
